@@ -271,6 +271,8 @@ class Models(object):
             return self.contains(sorted(container, key=repr), item)
         if isinstance(container, (set, frozenset)) and isinstance(item, SInt):
             return self.contains(sorted(container, key=repr), item)
+        if getattr(container, "_pyvc_model", False):
+            return container.__contains__(item)
         f = getattr(type(container), "__contains__", None)
         if isinstance(f, types.FunctionType) and self.interp.should_interpret(f):
             return self.interp.call_real_function(f, [container, item], {})
@@ -584,7 +586,7 @@ class Models(object):
 
     def str_strip(self, s, which, chars):
         if chars is None:
-            raise Undecided("strip() of whitespace on symbolic string")
+            chars = _WS
         atoms = list(s.atoms)
         if which in ("rstrip", "strip"):
             while atoms:
@@ -793,12 +795,17 @@ class Models(object):
                     if r is True or (isinstance(r, SBool) and self.ctx.branch(r.e, "key==%s" % k)):
                         return obj[k]
             raise KeyError(idx)
+        if getattr(obj, "_pyvc_model", False):
+            return obj[idx]
         f = getattr(type(obj), "__getitem__", None)
         if isinstance(f, types.FunctionType) and self.interp.should_interpret(f):
             return self.interp.call_real_function(f, [obj, idx], {})
         raise Undecided("getitem %r[%r]" % (obj, idx))
 
     def setitem(self, obj, idx, value):
+        if getattr(obj, "_pyvc_model", False):
+            obj[idx] = value
+            return
         f = getattr(type(obj), "__setitem__", None)
         if isinstance(f, types.FunctionType) and self.interp.should_interpret(f):
             return self.interp.call_real_function(f, [obj, idx, value], {})
@@ -816,6 +823,22 @@ class Models(object):
             c = v.concrete()
             if c is not None:
                 return iter(c)
+        if isinstance(v, SSeq) and node is not None and isinstance(node, ast.For) and not node.orelse \
+                and all(isinstance(s, ast.Expr) for s in node.body):
+            # accumulation rule (DESIGN.md 2.3 c): the body consists of expression statements only
+            # (no assignment, so no loop-carried state); it is executed once for an arbitrary index
+            # and its effects are logged inside a forall block.
+            ctx = self.ctx
+            i = ctx.fresh_int("i")
+            if not ctx.branch(v.length > 0, "loop-nonempty"):
+                return None
+            ctx.assume(z3.And(i >= 0, i < v.length))
+            ctx.effect("forall-begin", v, i)
+            self.used("accumulation-rule(for over abstract sequence, effect-only body)")
+            self.interp.assign(node.target, v.elem(i), env)
+            self.interp.exec_block(node.body, env)
+            ctx.effect("forall-end", v, i)
+            return None
         raise Undecided("iteration over %r" % (v,))
 
     def comp_sym(self, it, g, gens, i, env, emit, node):
@@ -1156,6 +1179,8 @@ class Models(object):
             return self.interp.call_real_function(f, [x], {})
         return hash(x)
 
+
+_WS = "".join(chr(c) for c in range(0x110000) if chr(c).isspace()) if False else " \t\n\r\x0b\x0c\x1c\x1d\x1e\x1f\x85\xa0\u1680\u2000\u2001\u2002\u2003\u2004\u2005\u2006\u2007\u2008\u2009\u200a\u2028\u2029\u202f\u205f\u3000"
 
 _STR_METHODS = {"format", "join", "startswith", "endswith", "split", "count", "rstrip", "strip", "lstrip",
                 "replace", "lower", "upper", "encode", "splitlines", "find", "index"}
